@@ -54,7 +54,11 @@ def make_spec(rng):
     ]
     if rng.random() < 0.25:
         rng.choice(vectors[:6])["enabled"] = False
-    return {"name": "DEV", "levels": [{"groups": [{"attr": "g", "name": "G", "enabled": True, "vectors": vectors}]}]}
+    # sometimes the whole GROUP is disabled while the vectors' own flags stay on: no property of it is "enabled"
+    genabled = rng.random() >= 0.12
+    for v in vectors:
+        v["genabled"] = genabled
+    return {"name": "DEV", "levels": [{"groups": [{"attr": "g", "name": "G", "enabled": genabled, "vectors": vectors}]}]}
 
 
 def gen_handlers(rng, spec):
@@ -299,7 +303,10 @@ def judge(ctx, case, op, kind, v, vec, el, ename, old, olds, native, returned, s
     pubs = [t for t in seg if t["what"] == "publish" and t["name"] == v["name"] and t["kind"].startswith("Set") and t["device"] == dname]
     ctx.count("publications_observed", len(pubs))
     mine = [t for t in calls if t["element"] == ename and t["vector"] == v["name"] and t["device"] == dname]
-    enabled = bool(vec.enabled)
+    # from the generated definition, not from the library's own flag (nothing toggles flags in these histories)
+    enabled = bool(v["enabled"]) and bool(v.get("genabled", True))
+    if not v.get("genabled", True):
+        ctx.count("operations_on_a_property_of_a_disabled_group")
 
     def viol(key, what):
         ctx.violate(key, what, case, {"op": [op[0], op[1], op[2], blobkey(op[3]) if not isinstance(op[3], dict) else op[3]],
@@ -310,7 +317,8 @@ def judge(ctx, case, op, kind, v, vec, el, ename, old, olds, native, returned, s
         for h in reads:
             n = sum(1 for t in mine if t["hid"] == h["id"])
             ctx.count("read_handler_calls", n)
-            if len({t["owner"] for t in mine if t["hid"] == h["id"]}) < ninst:
+            # a state change of a property that is not enabled publishes nothing, so nothing has to be read
+            if (how == "read" or enabled) and len({t["owner"] for t in mine if t["hid"] == h["id"]}) < ninst:
                 return viol(f"read-handler-not-run:{how}", f"plain Read handler {h['id']} did not run for {how}")
         fresh = [h["refresh"] for h in reads if h["refresh"]]
         if how == "read":
